@@ -5,14 +5,127 @@ from lib import common as C, het as H
 GEN = []
 IMPORTS = ['C08/kernel_weights', 'C08/lottery_1d_laws', 'C08/lottery_2d_laws', 'C08/markov_laws', 'C08/combined_shock_product_rule', 'C17/robust_bracket', 'C17/coord_reproduces_query', 'C17/monotone_equals_robust']
 TRUSTED = ['user-supplied backward, hetinput and hetoutput functions (called as black boxes by the reference recursion)', 'transition operators (C08)']
-ASSUMPTIONS = ['no Coq model of the HetBlock/StageBlock loops was built: this check is an implementation-level differential test against an independent dense numpy '
-               'recursion; it is reported at level "other", not as a proof']
+ASSUMPTIONS = ['the executable Coq instance of the loops covers one exogenous Markov dimension and the 1-D policy lottery with a fixture household whose backward step is written both in Python and in Gallina; '
+               'the shipped households (EGM steps with interpolation), 2-D lotteries, several exogenous dimensions and stage blocks are compared with an independent dense numpy recursion only',
+               'the bracketing index of the executable instance is the characterisation proved in C17 (least i with q <= x[i+1], capped), not the binary search itself']
 HEADER = ''
-LEVEL = 'other'
+
+
+TOY_SRC = '''import numpy as np
+from sequence_jacobian import het
+
+def toy_init(a_grid, e_grid):
+    V = np.zeros((len(e_grid), len(a_grid)))
+    return V
+
+def toy_Pi(Pi_ss, shift):
+    Pi = Pi_ss.copy()
+    Pi[:, 0] -= shift
+    Pi[:, -1] += shift
+    return Pi
+
+@het(exogenous='Pi', policy='a', backward='V', backward_init=toy_init)
+def toy(V_p, a_grid, e_grid, r, w, kappa):
+    coh = (1 + r) * a_grid[np.newaxis, :] + w * e_grid[:, np.newaxis]
+    a = np.minimum(np.maximum(0.5 * coh + kappa * V_p, a_grid[0]), a_grid[-1])
+    c = coh - a
+    V = 0.5 * V_p + c
+    return V, a, c
+
+toy_block = toy.add_hetinputs([toy_Pi])
+'''
+HEADER_TOY = ('From Coq Require Import ZArith QArith Qcanon List Arith Bool.\nFrom SSJ Require Import Model.HetLoop Model.HetPath.\nImport ListNotations.\nOpen Scope nat_scope.\n')
+
+
+def load_toy():
+    import os, sys, importlib
+    d = os.path.join(C.WORK, 'models')
+    os.makedirs(d, exist_ok=True)
+    with open(os.path.join(d, 'verif_toy.py'), 'w') as f:
+        f.write(TOY_SRC)
+    if d not in sys.path:
+        sys.path.insert(0, d)
+    importlib.invalidate_caches()
+    sys.modules.pop('verif_toy', None)
+    return importlib.import_module('verif_toy')
+
+
+def gen_toy(rng):
+    nz, na = rng.choice([2, 2, 3]), rng.randint(4, 6)
+    a_grid = [float(x) for x in ([0, 1, 2, 3, 4, 5][:na] if rng.random() < 0.5 else [0, 0.5, 1.5, 3, 5, 8][:na])]
+    e_grid = [[0.5, 1.5], [0.5, 1.0, 2.0]][nz - 2]
+    Pi = [[[0.75, 0.25], [0.25, 0.75]], [[0.5, 0.5], [0.125, 0.875]]][rng.randrange(2)] if nz == 2 else [[0.5, 0.25, 0.25], [0.25, 0.5, 0.25], [0.125, 0.375, 0.5]]
+    T = rng.randint(3, 5)
+    d = lambda s: [s * rng.choice([0, 1, -1, 2, 0.5]) for _ in range(T)]
+    shocks = {k: d(s) for k, s in (('r', 2.0 ** -6), ('w', 2.0 ** -4), ('shift', 2.0 ** -5)) if rng.random() < 0.7} or {'r': d(2.0 ** -6)}
+    return dict(nz=nz, na=na, a_grid=a_grid, e_grid=e_grid, Pi=Pi, kappa=rng.choice([0.125, -0.125, 0.5, -0.5, -1.0, 0.25]), r=rng.choice([0.03125, 0.0625, 0.0]), w=rng.choice([1.0, 0.75]),
+                T=T, shocks=shocks, distinct_initial=rng.random() < 0.35)
 
 
 def correspondence(ctx):
-    return dict(evaluations=0, distinct_nontrivial=0, rule='none', samples=[], disagreements=[], stats={})
+    """HetBlock.impulse_nonlinear of a fixture household (polynomial backward step clipped to the grid, Markov matrix moved by a hetinput) vs the
+    executable rational instance of the loop models (Model/HetPath.v): V, a, c, D, Dbeg at every date and the aggregates A, C"""
+    from fractions import Fraction
+    rng = ctx['rng']
+    n = 24 if ctx['tier'] == 'quick' else 300
+    m = load_toy()
+    blk = m.toy_block
+    qf = lambda v: (lambda fr: f'(hq {C.zs(fr.numerator)} {fr.denominator}%positive)')(Fraction(float(v)))
+    qarr = lambda A: C.coq_list(np.asarray(A).tolist(), lambda r: C.coq_list(r, qf))
+    cases, exprs, dis = [], [], []
+    stats = dict(distinct_initial=0, clipped_bottom=0, clipped_top=0, nz3=0)
+    for _ in range(n):
+        g = gen_toy(rng)
+        calib = dict(a_grid=np.array(g['a_grid']), e_grid=np.array(g['e_grid']), Pi_ss=np.array(g['Pi']), shift=0.0, r=g['r'], w=g['w'], kappa=g['kappa'])
+        try:
+            ss = blk.steady_state(calib)
+            ss0 = blk.steady_state(dict(calib, r=g['r'] + 0.03125, w=g['w'] * 0.5)) if g['distinct_initial'] else None
+            kw = {} if ss0 is None else dict(ss_initial=ss0)
+            T = g['T']
+            td = blk.impulse_nonlinear(ss, {k: np.array(v) for k, v in g['shocks'].items()}, internals={blk.name: ['V', 'a', 'c', 'D', 'Dbeg']}, **kw)
+        except Exception as ex:
+            dis.append(dict(what=f'fixture household raised {type(ex).__name__}: {ex}', case=g))
+            continue
+        base = ss.internals[blk.name]
+        got = {k: td.internals[blk.name][k] + base[k] for k in ('V', 'a', 'c', 'D', 'Dbeg')}
+        got['A'], got['C'] = td['A'] + ss['A'], td['C'] + ss['C']
+        stats['distinct_initial'] += int(ss0 is not None)
+        stats['clipped_bottom'] += int((got['a'] == g['a_grid'][0]).any())
+        stats['clipped_top'] += int((got['a'] == g['a_grid'][-1]).any())
+        stats['nz3'] += int(g['nz'] == 3)
+        ins = C.coq_list(range(T), lambda t: '{| i_r := %s; i_w := %s; i_shift := %s |}' % tuple(qf(ss[k] + g['shocks'].get(k, [0.0] * T)[t]) for k in ('r', 'w', 'shift')))
+        Dbeg0 = (ss0 if ss0 is not None else ss).internals[blk.name]['Dbeg']
+        exprs.append(f'run_toy {g["nz"]} {g["na"]} {T} {C.coq_list(g["a_grid"], qf)} {C.coq_list(g["e_grid"], qf)} {qarr(g["Pi"])} {qf(g["kappa"])} {ins} '
+                     f'{qarr(base["V"])} {qarr(base["Pi"])} {qarr(Dbeg0)}')
+        cases.append((g, got))
+    vals, logs = C.eval_in_coq('C09', HEADER_TOY, exprs, chunk=3, tag='toy')
+    fr = lambda x: float(Fraction(int(x[0]), int(x[1])))
+    A2 = lambda M: np.array([[fr(x) for x in r] for r in M])
+    for (g, got), vm in zip(cases, vals):
+        if vm is None:
+            continue
+        back, fwd, agg = vm
+        bad = []
+        for t in range(g['T']):
+            for k, Mm in zip(('V', 'a', 'c'), back[t]):
+                if np.abs(A2(Mm) - got[k][t]).max() > 1e-11 * max(1.0, np.abs(got[k][t]).max()):
+                    bad.append(f'{k}[{t}]')
+            for k, Mm in zip(('Dbeg', 'D'), fwd[t]):
+                if np.abs(A2(Mm) - got[k][t]).max() > 1e-12:
+                    bad.append(f'{k}[{t}]')
+            ag = agg[t] if len(agg[t]) == 2 else ((agg[t][0], agg[t][1]), agg[t][2])      # Coq prints ((a, b), (c, d)) as (a, b, (c, d))
+            for k, x in zip(('A', 'C'), ag):
+                if abs(fr(x) - got[k][t]) > 1e-11 * max(1.0, abs(got[k][t])):
+                    bad.append(f'{k}[{t}]')
+        if bad:
+            dis.append(dict(what='HetBlock.impulse_nonlinear differs from the executable model of the backward/forward recursions', case=dict(g, differing=bad[:8])))
+    for l in logs:
+        dis.append(dict(what='coq evaluation failed', log=l))
+    return dict(evaluations=len(exprs), distinct_nontrivial=len({C.canon(c[0]) for c in cases}),
+                rule='fixture household (2-3 income states, 4-6 asset grid points evenly or unevenly spaced, polynomial backward step V = V_p/2 + c with the asset policy clipped to the grid, Markov matrix '
+                     'shifted by a hetinput): dyadic shocks to r, w and the Markov shifter, horizons 3-5, 35% started from a distinct initial steady state; individual paths of V, a, c (1e-11), distribution '
+                     'paths D and Dbeg (1e-12) and aggregates A, C at every date vs the rational model, which is given the terminal V, the steady-state Markov matrix and the initial Dbeg of the implementation',
+                samples=[{k: v for k, v in cases[0][0].items()}] if cases else [], disagreements=dis, stats=stats)
 
 
 def compare(name, blk, ss, shocks, T, out, ss_initial=None, Dbeg0=None):
